@@ -13,7 +13,79 @@ import (
 	"fverif/world"
 )
 
-func init() { Registry["C17"] = C17 }
+func init() {
+	Registry["C17"] = C17
+	Registry["C17conc"] = c17conc
+}
+
+// c17conc: two authorization requests carrying the same request_uri overlap, on a store whose delete reports "no such row"
+// (the loser of the race to consume the pushed request learns about it). Every interleaving of their storage calls is
+// enumerated; a request_uri starts at most one authorization. With the reference store, whose delete never fails, the
+// statement promises nothing for overlapping requests, so only the row-counting store is driven.
+func c17conc(c *run.Ctx) {
+	c.Need("c17_schedules", 1)
+	limit := 3000
+	if c.Quick() {
+		limit = 400
+	}
+	for mi, rt := range []string{"code", "code id_token"} {
+		if !c.Mine(mi) {
+			continue
+		}
+		var prefix []int
+		schedules := 0
+		exhaustive := true
+		for {
+			w := world.New(world.Opts{Mode: world.Mode{DB: true, RowCount: true}})
+			a := world.Basic("conf-a", "secret-of-a")
+			par := w.PAR(url.Values{"client_id": {"conf-a"}, "response_type": {rt}, "scope": {"openid fosite"}, "state": {"state-0123456789"}, "nonce": {"nonce-0123456789"}, "redirect_uri": {"https://app-a.example/cb"}}, a)
+			if par.Err != nil {
+				c.Inconcl("push failed: " + world.ErrDetail(par.Err))
+				break
+			}
+			results := make([]*world.AuthzOut, 2)
+			var ops []func()
+			for i := 0; i < 2; i++ {
+				i := i
+				ops = append(ops, func() {
+					results[i] = w.Authorize(url.Values{"client_id": {"conf-a"}, "request_uri": {par.S("request_uri")}}, world.Consent{})
+				})
+			}
+			s := &world.Sched{W: w, Skip: map[string]bool{"GetClient": true}}
+			s.Run(ops, prefix)
+			if s.Hung {
+				c.Inconcl("scheduler watchdog fired")
+				break
+			}
+			schedules++
+			okN := 0
+			for _, o := range results {
+				if o != nil && o.Err == nil && o.Params.Get("code") != "" {
+					okN++
+				}
+			}
+			c.Eval(1)
+			c.Count("c17_schedules", 1)
+			c.Distinct["schedule "+rt+" "+strings.Join(s.Trace, " ")]++
+			c.Count(fmt.Sprintf("c17_authorizations_per_request_uri=%d", okN), 1)
+			if okN > 1 {
+				c.Violate(run.Violation{Kind: "request-uri-twice", Key: "request-uri-twice overlapping requests, row-counting store", Detail: "two overlapping authorization requests both started an authorization from one request_uri", History: s.Trace})
+			}
+			if schedules == 1 && mi == 0 {
+				c.Sample(map[string]interface{}{"response_type": rt, "first_schedule": s.Trace})
+			}
+			prefix = world.NextPrefix(s.Choices, s.Taken)
+			if prefix == nil {
+				break
+			}
+			if schedules >= limit {
+				exhaustive = false
+				break
+			}
+		}
+		c.Count(fmt.Sprintf("c17_schedules_%s_exhaustive=%v", strings.ReplaceAll(rt, " ", "+"), exhaustive), int64(schedules))
+	}
+}
 
 type pushed struct {
 	uri    string
